@@ -112,9 +112,8 @@ def pull_framers(ctx):
             R.check(shorts == ['len(packet_type) != 1', 'len(header) != header_size', 'len(body) != body_length'], rule, q + ' | short reads', 'every read is checked for its full length', f'short-read checks: {shorts}', p.loc(fn))
 
 
-def push_parser(ctx):
+def push_parser(ctx, rule='C02.push-parser'):
     R, p = ctx.r, ctx.p
-    rule = 'C02.push-parser'
     fd = p.find(f'{TC}.PacketParser.feed_data')
     rs = p.find(f'{TC}.PacketParser.reset')
     if fd is None or rs is None:
